@@ -18,7 +18,7 @@ from .model import (P, L, M, N, R, VOID, NODEF, TagLit, Field, Tag, Struct, Unio
 from . import model as mm
 
 IMPLEMENTED_FLAGS = {'ns', 'imports', 'files', 'inherit', 'subtypes', 'unions', 'uinherit', 'aliases', 'wrappers',
-                     'defaults', 'routes', 'versions', 'deprecation'}
+                     'defaults', 'routes', 'versions', 'deprecation', 'docs', 'examples', 'annotations', 'patches', 'attrs'}
 LETTERS = 'abcdefghijklmnopqrstuvwxyz'
 NS_NAMES = ['na', 'nb', 'nc', 'nd']
 
@@ -43,6 +43,8 @@ class Profile:
         self.wrappers = kw.get('wrappers', ('N', 'L', 'M'))
         self.init = kw.get('init')
         self.route_versions = kw.get('route_versions', (1, 2))
+        self.route_slots = kw.get('route_slots', 'arg')
+        self.schema = kw.get('schema', 0)
 
     def has(self, fam):
         return fam in self.families
@@ -90,6 +92,15 @@ def hard_deps(model, ns_name, d):
     for f in mm.own_members(model, ns_name, d):
         if f.type is not None:
             walk(ns_name, f.type)
+    return out
+
+
+def frozen_structs(model):
+    out = set()
+    for n, fi, di, d in mm.all_defs(model):
+        if isinstance(d, Struct) and d.examples:
+            for cns, cs in mm.struct_chain(model, n, d):
+                out.add((cns, cs.name))
     return out
 
 
@@ -254,8 +265,16 @@ class SpecMachine:
 
     def init_states(self):
         if self.p.init is not None:
-            return [self.p.init]
-        return [Model((Namespace('na', (EMPTY_FILE,)),))]
+            return list(self.p.init)
+        one = Model((Namespace('na', (EMPTY_FILE,)),))
+        out = [one]
+        if self.p.has('imports') and self.p.max_ns >= 2:
+            # start from non-initial states too: the two import directions between two namespaces
+            # (file order is na before nb, so both "importer first" and "imported first" occur)
+            imp = File(None, ('nb',), ())
+            out.append(Model((Namespace('na', (imp,)), Namespace('nb', (EMPTY_FILE,)))))
+            out.append(Model((Namespace('na', (EMPTY_FILE,)), Namespace('nb', (File(None, ('na',), ()),)))))
+        return out
 
     def canon(self, m):
         return m
@@ -275,11 +294,14 @@ class SpecMachine:
         out = []
         nss = m.namespaces
         # F1: namespaces and imports
-        if p.has('ns') and len(nss) < p.max_ns:
-            out.append(('ns+ ' + NS_NAMES[len(nss)], mm.add_ns(m, NS_NAMES[len(nss)])))
+        user_ns = [n for n in nss if n.name != 'stone_cfg']
+        if p.has('ns') and len(user_ns) < p.max_ns:
+            out.append(('ns+ ' + NS_NAMES[len(user_ns)], mm.add_ns(m, NS_NAMES[len(user_ns)])))
         if p.has('imports'):
             for a in nss:
                 for b in nss:
+                    if 'stone_cfg' in (a.name, b.name):
+                        continue
                     if a.name == b.name or b.name in mm.imports_of(m, a.name):
                         continue
                     if self._import_path(m, b.name, a.name):
@@ -292,10 +314,13 @@ class SpecMachine:
         # F2: files
         if p.has('files'):
             for i, ns in enumerate(nss):
-                if len(ns.files) < p.max_files:
+                if ns.name != 'stone_cfg' and len(ns.files) < p.max_files:
                     ns2 = ns._replace(files=ns.files + (EMPTY_FILE,))
                     out.append(('file+ ' + ns.name, m._replace(namespaces=nss[:i] + (ns2,) + nss[i + 1:])))
+        frozen = frozen_structs(m)
         for ns in nss:
+            if ns.name == 'stone_cfg':
+                continue
             files = range(len(ns.files))
             tdefs = type_defs(m, ns.name)
             structs = [d for _, d in tdefs if isinstance(d, Struct)]
@@ -323,6 +348,8 @@ class SpecMachine:
                         out.extend(self._route_actions(m, ns, fi, routes))
             # members
             for s in structs:
+                if (ns.name, s.name) in frozen:
+                    continue      # has (or is inherited by a struct that has) examples: its field list is settled
                 nfields = len(s.fields)
                 if nfields < p.max_fields:
                     fname = 'f%s%d' % (s.name[1:], nfields)
@@ -356,7 +383,11 @@ class SpecMachine:
                             continue
                         m2 = mm.update_def(m, ns.name, u.name, lambda d, r=r: d._replace(parent=r))
                         out.append(('uextends+ %s.%s<%r' % (ns.name, u.name, r), m2))
+        out.extend(self.extra_actions(m))
         return out
+
+    def extra_actions(self, m):
+        return []
 
     @staticmethod
     def _add_field(d, f):
@@ -395,7 +426,7 @@ class SpecMachine:
         for name, ver in cands:
             # vary one of arg/result/error at a time over the menu (others Void): every type reaches every slot
             seen = set()
-            for slot in range(3):
+            for slot in (range(3) if p.route_slots == 'all' else (0,)):
                 for t in menu:
                     sig = [VOID, VOID, VOID]
                     sig[slot] = t
@@ -475,7 +506,7 @@ class SpecMachine:
         for n2, d in type_defs(m, ns.name):
             if not isinstance(d, Struct) or d.name == root.name or d.parent is not None or d.subtypes is not None:
                 continue
-            if mm.children_of(m, ns.name, d.name):
+            if mm.children_of(m, ns.name, d.name) or d.examples:
                 continue
             if reaches(m, (ns.name, root.name), (ns.name, d.name)):
                 continue
